@@ -59,6 +59,29 @@ Theorem C16_component_changes_running_seed_partial :
 Proof. exact component_changes_running_seed. Qed.
 Print Assumptions C16_component_changes_running_seed_partial.
 
+(* the hash has no history: the object carries only its members, t.hash() is recomputed from the current member
+   tuple on every call.  (a) hashes taken along the way (directly or by a container) do not change the object;
+   (b) the hash asked for after ANY history of hash requests, in-place member assignments and whole-object
+   assignments is the hash of a freshly built object with the members the object has now *)
+Theorem C16_hash_has_no_history : forall (leaf : Type) (h : leaf -> N) (ops : list (hop leaf)) (l : list (value leaf)),
+  (forall seen seen', fst (hrun leaf h ops l seen) = fst (hrun leaf h (filter (is_mutation leaf) ops) l seen')) /\
+  fst (hrun leaf h (ops ++ [HHash]) l []) = fst (hrun leaf h ops l []) /\
+  snd (hrun leaf h (ops ++ [HHash]) l []) = snd (hrun leaf h ops l []) ++ [hash leaf h (VObj (fst (hrun leaf h ops l [])))].
+Proof.
+  intros leaf h ops l. split; [intros seen seen'; exact (hrun_members_ignore_hashes leaf h ops l seen seen') | exact (hash_after_history leaf h ops l)].
+Qed.
+Print Assumptions C16_hash_has_no_history.
+
+(* so "equal values hash equal" holds for values however they came to be: a mutated object hashes like every
+   value equal to its current state *)
+Theorem C16_hash_after_history_respects_eq : forall (leaf : Type) (h : leaf -> N) (leqb lltb : leaf -> leaf -> bool),
+  leaf_ok leaf h leqb lltb ->
+  forall (ops : list (hop leaf)) (l : list (value leaf)) (y : value leaf),
+  veqb leaf leqb (VObj (fst (hrun leaf h ops l []))) y = true ->
+  snd (hrun leaf h (ops ++ [HHash]) l []) = snd (hrun leaf h ops l []) ++ [hash leaf h y].
+Proof. exact hash_after_history_eq. Qed.
+Print Assumptions C16_hash_after_history_respects_eq.
+
 (* the six friend operators of tuple_operators<T> are the lexicographic predicates on the member lists *)
 Theorem C16_six_operators_lexicographic : forall (leaf : Type) (h : leaf -> N) (leqb lltb : leaf -> leaf -> bool),
   leaf_ok leaf h leqb lltb ->
@@ -180,4 +203,10 @@ Example C16_ex_table :
   length t = 2%nat /\ tfind N nh N.eqb t (VObj [VLeaf 3; VLeaf 4]) = Some 1%nat /\ tfind N nh N.eqb t (VObj [VLeaf 1; VLeaf 2]) = Some 0%nat /\
   tfind N nh N.eqb t (VObj [VLeaf 2; VLeaf 1]) = None.
 Proof. vm_compute. repeat split. Qed.
+Example C16_ex_history :
+  (* hash x; x.member1 = 9; hash x  — the second word is the hash of a fresh (1, 9), not the first word again *)
+  hrun N nh [HHash; HSet 1%nat (VLeaf 9); HHash] [VLeaf 1; VLeaf 0] [] =
+  ([VLeaf 1; VLeaf 9], [hash N nh (VObj [VLeaf 1; VLeaf 0]); hash N nh (VObj [VLeaf 1; VLeaf 9])]) /\
+  hash N nh (VObj [VLeaf 1; VLeaf 0]) <> hash N nh (VObj [VLeaf 1; VLeaf 9]).
+Proof. vm_compute. split; [reflexivity | discriminate]. Qed.
 End Examples.
